@@ -465,7 +465,7 @@ func (c *simClient) List(ctx context.Context, list client.ObjectList, opts ...cl
 		keys = append(keys, key)
 	}
 	sort.Strings(keys)
-	if !c.k.run.rt.Quiet {
+	if !c.k.run.rt.Quiet || c.k.run.rt.QuietOrder {
 		c.k.run.Shuffle("kube.list."+ki.name, len(keys), func(i, j int) { keys[i], keys[j] = keys[j], keys[i] })
 	}
 	items := reflect.ValueOf(list).Elem().FieldByName("Items")
